@@ -96,7 +96,7 @@ PROPS = {
         ],
         "trusted_base": [STDLIB, "address/version/registry-package parsers are parameters of the model (BundleOracle); on the lane the real parsers answer for exactly the strings in the manifest; encoding/json as an identity on the manifest structure"],
         "assumptions": ["the bundle root is an absolute clean path; sub-paths handed to lookups are valid sub-paths (the address types guarantee it: C19_normalize_valid)"],
-        "explanation": "C18_refuse (a package directory named '', '.', '..' or containing a separator makes OpenDir fail, whatever the parsers say), C18_dirs_valid, C18_inside / C18_inside_registry (every lookup of an opened bundle lies strictly inside the root; component-level form C18_inside_segs), C18_roundtrip / C18_roundtrip_back / C18_alias_same_path (path -> (directory, sub-path) -> path is the identity, for any alias), C18_not_in_bundle* . Tie: 'bundle' lane: OpenDir on generated and mutated manifests, every lookup and SourceForLocalPath over 14 path shapes, compared with the model and the containment/inversion oracle.",
+        "explanation": "C18_refuse (a package directory named '', '.', '..' or containing a separator makes OpenDir fail, whatever the parsers say), C18_dirs_valid, C18_inside / C18_inside_registry (every lookup of an opened bundle lies strictly inside the root; component-level form C18_inside_segs), C18_roundtrip / C18_roundtrip_back / C18_alias_same_path (path -> (directory, sub-path) -> path is the identity, for any alias), C18_not_in_bundle*; Props/C18b: C18_reverse_order_free (the reverse lookup does not depend on the stored order of the table = map iteration order), C18_pick_min / C18_pick_perm, C18_addrBefore_strict_total, C18_reverse_sound, C18_reverse_roundtrip_addr, C18_reverse_total. Tie: 'bundle' lane: OpenDir on generated and mutated manifests, every lookup and SourceForLocalPath over 14 path shapes, compared with the model and the containment/inversion oracle.",
     },
     "C09": {
         "lanes": [
@@ -135,7 +135,7 @@ PROPS = {
         ],
         "trusted_base": [BUILDERMODEL, "encoding/json + sort: the manifest is a function of the final tables (sections sorted by printed address); checked by byte comparison on the lane, not modelled"],
         "assumptions": ["interleavings below the granularity of the builder's mutex (Go memory model) cannot be exhibited by the model: covered by the supporting -race run in the thorough tier only (partial)"],
-        "explanation": "C13_order (permuting the Add calls of an error-free build leaves analysed set, package directories, metadata, resolved versions and deprecations unchanged), C13_clean_same / C13_clean_order (error-freeness itself is order independent), C13_dirs_spec / C13_resolved_spec / C13_deprec_spec (order-free characterisation of each table), C13_coalesce (same directory iff same fetched content). Tie: 'builder-order' lane builds every permutation (exhaustive up to 4 calls) and a concurrent run, compares manifest bytes, ChecksumV1 and directory listing, and compares each permutation with the model.",
+        "explanation": "C13_order (permuting the Add calls of an error-free build leaves analysed set, package directories, metadata, resolved versions and deprecations unchanged), C13_clean_same / C13_clean_order (error-freeness itself is order independent), C13_dirs_spec / C13_resolved_spec / C13_deprec_spec (order-free characterisation of each table), C13_coalesce (same directory iff same fetched content); Props/C13m: C13_manifest_written / C13_manifest_order (the sorted row sequence writeManifest produces is the same for every permutation of the calls), C13_sortStr_sorted / _perm / _canonical, C13_manifestSorted_rows (the sorted manifest has the rows of manifestOf). Tie: 'builder-order' lane builds every permutation (exhaustive up to 4 calls) and a concurrent run, compares manifest bytes, ChecksumV1 and directory listing, and compares each permutation with the model.",
     },
     "C14": {
         "lanes": [
@@ -173,15 +173,15 @@ PROPS = {
                          "Go regexp engine restricted to the five fragments compile emits (lit, [^/]*, [^/], (.*/)?, .*) is modelled by matchT; bufio.ScanLines, strings.TrimSpace modelled",
                          "facts regenerated from the source on every run: default rule table, escaped-character set, (?s) flag (Generated/Ignore.lean)"],
         "assumptions": ["patterns with '[', ']' or '\\' are outside the modelled fragment (the rule language leaves them unspecified); '**' glued to other characters in one segment is outside WFVal"],
-        "explanation": "C03_compile_sound: for every well-formed stored pattern and EVERY path string the compiled regexp tokens decide exactly the segment-wise glob; C03_last_match_wins; C03_defaults (exact characterisation of the built-in rules); C03_marking (negationsAfter invariant of parsing, incl. the early break); C03_prune_sound under TailClosed + C03_cex_prune_star_tail. Tie: 'ignore' lane runs ParseIgnoreFileContent/Excludes next to the model and an independent Go segment-wise matcher.",
+        "explanation": "C03_compile_sound: for every well-formed stored pattern and EVERY path string the compiled regexp tokens decide exactly the segment-wise glob; C03_last_match_wins; C03_defaults (exact characterisation of the built-in rules); C03_marking (negationsAfter invariant of parsing, incl. the early break); C03_prune_sound under TailClosed + C03_cex_prune_star_tail; Props/C03w (walk level): C03_pack_excluded_never_ships_any (any options incl. dereferencing; F43 repaired), C03_pack_ships_iff, C03_pack_filter, C03_pack_included_ships_partial, C03_pack_nofilter, C03_bundle_excluded_removed, C03_bundle_included_kept_partial, C03_cex_bundle_reinclude / C03_cex_bundle_default_modules / C03_cex_bundle_dir_pattern_fails (F9 and its variants). Tie: 'ignore' lane runs ParseIgnoreFileContent/Excludes next to the model and an independent Go segment-wise matcher.",
     },
     "C10": {
         "lanes": [
             {"lane": "sanitise", "quick": 2500, "thorough": 60000},
         ],
         "trusted_base": [STDLIB, FSMODEL, "dirhash is modelled as 'opens and reads every non-directory below the package root' (hashable); the content hash itself is an opaque injective name; filepath.EvalSymlinks = physical resolution with existence"],
-        "assumptions": ["open finding F31: a link whose target names the temporary work directory (absolute path, or relative through its name) validates and hashes before the rename and dangles after it (C10_cex_abs_link_into_workdir, C10_cex_rel_link_through_workdir_name); on a FAILED fetch/preparation the temporary directory stays behind (C10_cex_tmp_left_on_failure) - the builder is poisoned then, so no finished bundle contains it"],
-        "explanation": "C10_sanitised_before_rename / C10_sanitised_partial (after a successful preparation every binding below the package directory is a regular file, a directory, or a link resolving to a regular file inside the package, and nothing the ignore rules exclude is left), C10_links_resolve_after_rename_partial (links still resolve after the rename when their targets are local: relative, '..' first, not above the package), C10_fail_on_dangling / _escape / _special + propagation lemmas (such content makes the build fail), C10_hash_rejects_bad_links, C10_no_tmp_left (success leaves no temporary directory), C10_frame / C10_frame_ensure (nothing outside the work and final directories changes), C10_only_deletes, C10_ignored_removed*. Tie: 'sanitise' lane: one fetched tree per real build, whole-arena filesystem comparison with the model (also on failure) + physical-resolution walk of the finished package directory.",
+        "assumptions": ["C10_links_survive_rename assumes the final name is a fresh sibling of the work directory (what the builder guarantees); on a FAILED fetch/preparation the temporary directory stays behind (C10_cex_tmp_left_on_failure) - the builder is poisoned then, so no finished bundle contains it"],
+        "explanation": "C10_sanitised_before_rename / C10_sanitised_partial (after a successful preparation every binding below the package directory is a regular file, a directory, or a link resolving to a regular file inside the package, and nothing the ignore rules exclude is left), C10_links_survive_rename / C10_sanitised (after the rename to the final name every link is relative, lexically local and resolves to a regular file inside the package; F31 repaired: C10_abs_link_into_workdir_refused, C10_rel_link_through_workdir_name_refused; C10_kept_links_relative_local, C10_walk_alone_not_enough), C10_fail_on_dangling / _escape / _special + propagation lemmas (such content makes the build fail), C10_hash_rejects_bad_links, C10_no_tmp_left (success leaves no temporary directory), C10_frame / C10_frame_ensure (nothing outside the work and final directories changes), C10_only_deletes, C10_ignored_removed*. Tie: 'sanitise' lane: one fetched tree per real build, whole-arena filesystem comparison with the model (also on failure) + physical-resolution walk of the finished package directory.",
     },
     "C11": {
         "lanes": [
